@@ -165,6 +165,17 @@ def main():
                     backend = "numpy"
                 ds = G.build(desc, backend)
                 app = BaseHandler(ds, gzip=gz)
+                if in_corpus or rng.random() < 0.5:
+                    # the application has a past: every array and sequence was asked for before with a narrow hyperslab (a
+                    # projection-only request) - what is served afterwards is the whole dataset all the same
+                    for vid_, d_ in G.walk_desc(desc):
+                        if d_[0] == "seq" or d_[3]:
+                            ce_ = vid_ + ("[0:1:0]" if d_[0] == "seq" else "[0:1:0]" * len(d_[3]))
+                            try:
+                                Request.blank("/.dods?" + ce_).get_response(app).body
+                            except Exception:  # noqa
+                                pass
+                    cfg_count["served_narrow_requests_before"] = cfg_count.get("served_narrow_requests_before", 0) + 1
                 # the block size of the streaming encoder is a deployment setting (environ key pydap.buffer_size): the corpus is
                 # always served in blocks of a few bytes, the generated datasets in a third of the cases
                 bs = rng.choice([3, 5]) if in_corpus else rng.choice([None, None, 1, 3, 5, 8])
@@ -176,8 +187,13 @@ def main():
                 # the separator hypothesis of the theorem, on the real DDS text
                 body = Request.blank("/.dods").get_response(BaseHandler(ds)).body
                 if bs is not None and not gz:
-                    body_small = Request.blank("/.dods", environ={"pydap.buffer_size": bs}).get_response(BaseHandler(ds)).body
-                    if body_small != body:
+                    try:
+                        body_small = Request.blank("/.dods", environ={"pydap.buffer_size": bs}).get_response(BaseHandler(ds)).body
+                    except AssertionError as e:      # webob: Content-Length differs from the bytes the application sent
+                        body_small = None
+                        direct.append({"law": "a response carries the bytes its headers announce, whatever the block size", "config": "buffer_size=%d" % bs,
+                                       "dataset": repr(desc)[:1500], "error": repr(e)[:200]})
+                    if body_small is not None and body_small != body:
                         direct.append({"law": "the bytes of a response do not depend on the block size it is streamed in", "config": "buffer_size=%d" % bs,
                                        "dataset": repr(desc)[:1500]})
                 dds_txt = body.split(b"\nData:\n", 1)[0]
